@@ -370,8 +370,6 @@ func runCases(c *core.Ctx, byCC map[string]*regime, cases []tcase) int {
 			}
 			known := ""
 			switch {
-			case t.CC == "BR" && (t.Code != cleanASCII(t.Code) || strings.HasPrefix(cleanASCII(t.Code), "BR")):
-				known = "br-normalizer-not-registered"
 			case doubledPrefix(rg, t):
 				known = "normalize-doubled-country-prefix"
 			case rg.Rewrites && t.Country != rg.CC && strings.HasPrefix(cleanASCII(t.Code), rg.CC):
